@@ -73,9 +73,12 @@ Proof.
       cbn [encode_chunks]. rewrite He. reflexivity.
 Qed.
 
-(* what Encoder.reset must clear for the next sequence to start like the first *)
+(* what Encoder.reset must clear for the next sequence to start like the first -- and, for the empty message list (which
+   stream_sequence refuses like encode_parts does), that SequenceCompleted refuses before it writes anything when no message
+   was written (gen/DecoderReset.v: stream_completed_rejects_empty, read from the source; fix 2690f88) *)
 Definition reset_complete : bool :=
-  enc_reset_validator && enc_reset_crc && enc_reset_lru && enc_reset_datasize && enc_reset_tsref && enc_reset_lastts && stream_completed_resets.
+  enc_reset_validator && enc_reset_crc && enc_reset_lru && enc_reset_datasize && enc_reset_tsref && enc_reset_lastts && stream_completed_resets
+  && stream_completed_rejects_empty.
 
 Lemma enc_reset_init c s : reset_complete = true ->
   (if stream_completed_resets then enc_reset c s else s) = ss_init c.
